@@ -198,6 +198,12 @@ func generate(w *mon.W) {
 		}
 		fills = append(fills, sb.String())
 	}
+	// long contents with a hostile character at the end, in the middle and at the start
+	for _, L := range []int{31, 32, 33, 63, 64, 65, 127, 128, 129, 255, 256, 257, 1023, 1024, 1025, 4095, 4096, 4097, 65535, 65536, 65537} {
+		for _, h := range []string{"'", "\"", "\\", "`", "é", "\xff"} {
+			fills = append(fills, strings.Repeat("a", L-1)+h, h+strings.Repeat("b", L-1), strings.Repeat("c", L/2)+h+strings.Repeat("c", L-L/2-1), strings.Repeat(h, L/len(h)))
+		}
+	}
 	if !w.Quick() {
 		gen.EnumStrings(hostile, 3, func(s string) bool {
 			if len(s) >= 3 {
